@@ -294,6 +294,6 @@ def shard(ctx, n):
 
 def run(ctx):
     if ctx.quick:
-        ctx.parallel(shard, 16, 40)
+        ctx.parallel(shard, 16, 64)
     else:
         ctx.parallel(shard, 16, 1500)
